@@ -833,6 +833,45 @@ def C19(ctx):
                     grid.add((N, m_, c, 1))
                     lim_items.append({"prog": p, "cfg": {"max_permutations": m_, "max_duration_ms": 0, "checkpoint_interval": c}})
                     lim_meta.append((bi, "both_limits", (N, m_, c, 1), None))
+    # the branch limit also holds for a run that was resumed from a checkpoint: stop before the first iteration that needs
+    # the longest path, resume with max_branches one below that need
+    ck = os.path.join(ctx.work, "ckpt_lim")
+    os.makedirs(ck, exist_ok=True)
+    ra_items, ra_meta = [], []
+    # programs whose longest execution is not the first one (the number of branches depends on what was read)
+    grow = [dsl.normalize(q) for q in [
+        families.P("len-grows-if-flag-seen", families.SJ(2) + families.JJ(2), [dsl.ld("x", "sc"), dsl.br(1, 1, 3), dsl.ld("y"), dsl.ld("y"), dsl.ld("y")],
+                   [dsl.st("x", 1, "sc")]),
+        families.P("len-grows-if-trylock-wins", families.SJ(2) + families.JJ(2), [dsl.ld("x", "sc"), dsl.br(1, 1, 4), dsl.I("lock", "m"), dsl.ld("y"), dsl.ld("y"), dsl.I("unlock", "m")],
+                   [dsl.st("y", 1), dsl.st("x", 1, "sc")]),
+        families.P("len-grows-3", families.SJ(3) + families.JJ(3), [dsl.ld("x", "sc"), dsl.br(1, 2, 3), dsl.fadd("y", 1), dsl.fadd("y", 1), dsl.fadd("y", 1)],
+                   [dsl.fadd("x", 1, "sc")], [dsl.fadd("x", 1, "sc")]),
+    ]]
+    GU = core.run_loom(ctx, grow, cfg_of=lambda p: {"iter_cap": 100000, "want_paths": True, "path_cap": 100000}, tag="unres_grow")
+    lbase2 = lbase + [(p, u) for p, u in zip(grow, GU) if u["end"] == "ok"]
+    for bi, (p, u) in enumerate(lbase2):
+        lens = [len(pathcheck.canon_path(pth)["br"]) for (ph, it, pth) in u["hook_events"] if ph == "end"]
+        if not lens or len(lens) > 600:
+            continue
+        Lmax = max(lens)
+        jstar = lens.index(Lmax) + 1
+        for k in sorted({2, jstar // 2, jstar - 1}):
+            if 2 <= k < jstar:
+                f = os.path.join(ck, f"b{bi}_k{k}.json")
+                if os.path.exists(f):
+                    os.remove(f)
+                ra_items.append({"prog": p, "cfg": {"checkpoint_file": f, "checkpoint_interval": 1, "max_permutations": k}})
+                ra_meta.append((bi, k, f, Lmax))
+    if ra_items:
+        loomrun.run_items(os.path.join(ctx.work, "limresA"), ra_items, jobs=ctx.jobs, tag="limresA")
+        rb_items = [{"prog": it["prog"], "cfg": {"checkpoint_file": m[2], "checkpoint_interval": 100000, "max_branches": m[3] - 1}}
+                    for it, m in zip(ra_items, ra_meta)]
+        RB = loomrun.run_items(os.path.join(ctx.work, "limresB"), rb_items, jobs=ctx.jobs, tag="limresB")
+        for (bi, k, f, Lmax), r in zip(ra_meta, RB):
+            if r["end"] != "branches":
+                ctx.violation("max-branches-not-reported", lbase2[bi][0], {"max_branches": Lmax - 1, "need": Lmax, "end": r["end"],
+                                                                           "resumed_after": k}, {"msg": r["msg"][:200]})
+        ctx.cov["resumed_limit_runs"] = len(rb_items)
     exp = checkloop_expected(ctx, grid) if grid else {}
     LR = loomrun.run_items(os.path.join(ctx.work, "limits"), lim_items, jobs=ctx.jobs, tag="limits")
     for (bi, kind, val, ref), r in zip(lim_meta, LR):
